@@ -22,28 +22,32 @@ Adv == l' = l + 1 /\ t' = t
 QW == Log[t].qwire
 Frame == <<Len(QW) \div 256, Len(QW) % 256>> \o QW
 
+\* once the deadline has passed the library must not touch the socket again
+AfterDeadline == Check(t, l, "NothingAfterDeadline", phase # "timeout")
+
 TAccept ==
-    /\ e.op = "accept"
+    /\ e.op = "accept" /\ AfterDeadline
     /\ LET n == Len(e.bytes) IN
        /\ Check(t, l, "NothingWrittenAfterFrame", phase = "send" /\ n >= 1 /\ Len(sent) + n <= Len(Frame))
        /\ Check(t, l, "WritesEveryOctetOnceInOrder", e.bytes = SubSeq(Frame, Len(sent) + 1, Len(sent) + n))
-       /\ Accept(n)
+       /\ Take(n)
     /\ Adv
 
 TRead ==
-    /\ e.op = "read"
+    /\ e.op = "read" /\ AfterDeadline
     /\ Check(t, l, "ReadsOnlyWhatIsNeeded", phase \in {"len", "body"} /\ e.want >= 1 /\ e.want <= need - got)
     /\ IF e.n = 0 THEN Eof ELSE Chunk(e.n)
     /\ Adv
 
-TBlock == e.op = "block" /\ Block /\ Adv
-TSilence == e.op = "silence" /\ Silence /\ Adv
+TBlock == e.op = "block" /\ AfterDeadline /\ Block /\ Adv
+TSilence == e.op = "silence" /\ AfterDeadline /\ Silence /\ Adv
 
 TEnd ==
     /\ e.op = "end"
     \* the call may end only when the message is complete, the stream ended or the deadline
     \* passed: giving up (or returning) while the rest is still to come is a framing error
-    /\ Check(t, l, "CompletesUnderFragmentation", ~Active)
+    /\ Check(t, l, "CompletesUnderFragmentation",
+             ~Active \/ (HasDeadline /\ now >= cfg.deadline /\ e.kind = "timeout" /\ e.now = now))
     /\ Check(t, l, "EofIsError", phase = "eof" => e.kind = "raise")
     /\ Check(t, l, "DeadlineIsTimeout", phase = "timeout" => (e.kind = "timeout" /\ e.now = now))
     /\ Check(t, l, "NoDeadlineWaits", phase = "hang" => e.kind = "hang")
